@@ -215,35 +215,7 @@ func runC06(c *Ctx) {
 	// R3 provider record content
 	c.Rule("R3")
 	{
-		sites := 0
-		for _, s := range p.AllCalls("(*dht/pb.ProtocolMessenger).PutProviderAddrs") {
-			if eng.Short(s.F.Pkg.PkgPath) != "dht" {
-				continue
-			}
-			sites++
-			info := s.F.Info()
-			call := s.Call()
-			cl, isCL := eng.Unparen(call.Args[len(call.Args)-1]).(*ast.CompositeLit)
-			ok := isCL && len(cl.Elts) == 2
-			if ok {
-				for _, el := range cl.Elts {
-					kv, isKV := el.(*ast.KeyValueExpr)
-					if !isKV {
-						ok = false
-						continue
-					}
-					switch eng.NameOf(kv.Key.(*ast.Ident)) {
-					case "ID":
-						ok = ok && eng.IsField(info, kv.Value, "dht.IpfsDHT.self")
-					case "Addrs":
-						_, isFA := eng.IsCallTo(info, kv.Value, "(*dht.IpfsDHT).FilteredAddrs")
-						ok = ok && isFA
-					}
-				}
-			}
-			c.Check(K(s.F.Name, "provider record content"), call.Pos(), ok, "an ADD_PROVIDER names exactly the local peer ID with dht.FilteredAddrs()", "AddrInfo is not {ID: dht.self, Addrs: dht.FilteredAddrs()}")
-		}
-		c.Check("PutProviderAddrs sites", 0, sites >= 2, "classic and optimistic provide announce", "found "+itoa(sites))
+		c06ProviderRecordContent(c)
 		for _, s := range p.AllCalls("(github.com/libp2p/go-libp2p/core/host.Host).Addrs") {
 			if eng.Short(s.F.Pkg.PkgPath) != "dht" {
 				continue
@@ -510,4 +482,38 @@ func c06FilteredAddrs(c *Ctx) {
 		}
 	}
 	c.Check(K(fl.Name, "applies configured filter"), fl.Pos(), okFl, "filterAddrs applies the configured address filter when one is set", "no `return f(addrs)` behind f != nil")
+}
+
+// c06ProviderRecordContent: every ADD_PROVIDER the DHT builds names {self, FilteredAddrs()} (shared with C15.R4).
+func c06ProviderRecordContent(c *Ctx) {
+	p := c.P
+	sites := 0
+	for _, s := range p.AllCalls("(*dht/pb.ProtocolMessenger).PutProviderAddrs") {
+		if eng.Short(s.F.Pkg.PkgPath) != "dht" {
+			continue
+		}
+		sites++
+		info := s.F.Info()
+		call := s.Call()
+		cl, isCL := eng.Unparen(call.Args[len(call.Args)-1]).(*ast.CompositeLit)
+		ok := isCL && len(cl.Elts) == 2
+		if ok {
+			for _, el := range cl.Elts {
+				kv, isKV := el.(*ast.KeyValueExpr)
+				if !isKV {
+					ok = false
+					continue
+				}
+				switch eng.NameOf(kv.Key.(*ast.Ident)) {
+				case "ID":
+					ok = ok && eng.IsField(info, kv.Value, "dht.IpfsDHT.self")
+				case "Addrs":
+					_, isFA := eng.IsCallTo(info, kv.Value, "(*dht.IpfsDHT).FilteredAddrs")
+					ok = ok && isFA
+				}
+			}
+		}
+		c.Check(K(s.F.Name, "provider record content"), call.Pos(), ok, "an ADD_PROVIDER names exactly the local peer ID with dht.FilteredAddrs()", "AddrInfo is not {ID: dht.self, Addrs: dht.FilteredAddrs()}")
+	}
+	c.Check("PutProviderAddrs sites", 0, sites >= 2, "classic and optimistic provide announce", "found "+itoa(sites))
 }
